@@ -30,8 +30,9 @@ import (
 // admitted and that are unfinished never exceed the limit the admitting call loaded.
 
 type FEv struct {
-	T    int       `json:"t"`
-	Sync *[]Schema `json:"sync,omitempty"`
+	T     int       `json:"t"`
+	Sync  *[]Schema `json:"sync,omitempty"`
+	Reset *string   `json:"reset,omitempty"` // ResetLimiter(mode), mode hex
 }
 
 type FSchedCase struct {
@@ -212,6 +213,17 @@ func runImplFSched(s FSchedCase) (res fschedResult) {
 		}
 	}
 	for k, ev := range s.Events {
+		if ev.Reset != nil {
+			ctl.current = nil
+			msg, panicked := rig.Recover(func() { lim.ResetLimiter(rig.UnHex(*ev.Reset)) })
+			if panicked {
+				res.steps = append(res.steps, FStepObs{Out: "panic", Msg: msg})
+				return
+			}
+			cnt, mx := curState(s.nameOf(0))
+			res.steps = append(res.steps, FStepObs{Out: "none", Count: cnt, Max: mx})
+			continue
+		}
 		if ev.Sync != nil {
 			ctl.current = nil
 			var spec proxyv1alpha1.FlowControl
@@ -345,7 +357,9 @@ func runFSched(c *rig.Ctx, s FSchedCase, record bool) bool {
 	// wire: schemas need "schemas"-style encoding; events carry {"t"} or {"sync":[...]}
 	evs := make([]map[string]interface{}, len(s.Events))
 	for i, e := range s.Events {
-		if e.Sync != nil {
+		if e.Reset != nil {
+			evs[i] = map[string]interface{}{"reset": *e.Reset}
+		} else if e.Sync != nil {
 			evs[i] = map[string]interface{}{"sync": normSchemas(*e.Sync)}
 		} else {
 			evs[i] = map[string]interface{}{"t": e.T}
@@ -435,6 +449,7 @@ func genFSchedCase(c *rig.Ctx) FSchedCase {
 	n := 10 + c.Rng.Intn(70)
 	cur := c.Rng.Intn(threads)
 	stick := 1 + c.Rng.Intn(5)
+	resets := 0
 	for len(s.Events) < n {
 		name := rig.Pick(c.Rng, names)
 		switch r := c.Rng.Intn(100); {
@@ -444,6 +459,13 @@ func genFSchedCase(c *rig.Ctx) FSchedCase {
 		case r < 11 && name != "": // type change or deletion
 			cfg[name] = fschedSchema(c, name, 1+c.Rng.Intn(3))
 			emit()
+		case r < 14: // limiter-mode switch while requests are inside their calls, then the Sync of the unchanged list
+			mode := rig.Hex(rig.Pick(c.Rng, []string{"remote", "local", "remote", "local", ""}))
+			s.Events = append(s.Events, FEv{Reset: &mode})
+			resets++
+			if c.Rng.Intn(3) > 0 {
+				emit()
+			}
 		default:
 			if c.Rng.Intn(stick+1) == 0 {
 				cur = c.Rng.Intn(threads)
@@ -476,6 +498,12 @@ func genFSched(c *rig.Ctx) {
 		}
 		if len(s.Names) > 1 {
 			b += ",look-alike-names"
+		}
+		for _, e := range s.Events {
+			if e.Reset != nil {
+				c.Count("fsched-reached:mode-switch")
+				break
+			}
 		}
 		c.Case(rig.Canon(s), syncs > 1, b, func() interface{} { return s })
 		c.Trace()
